@@ -529,6 +529,14 @@ func (r *renderer) computed(g gcfg, v *model.V) (src, path string) {
 	var options []string
 	options = append(options, "union", "with", "without", "diff", "intersect", "where-ne", "where-in", "let")
 	sv, isSeq := v.AsSeq()
+	if isSeq && len(tagsOf(v)) > 0 {
+		// only sequences the sugar can hold are operands of \, ++ and >>
+		for _, tg := range tagsOf(v) {
+			if tg == "odd-sugar" {
+				isSeq = false
+			}
+		}
+	}
 	if isSeq {
 		options = append(options, "offset", "offset")
 		if sv.Holes == 0 && len(sv.Items) >= 2 {
@@ -703,4 +711,167 @@ func reprKind(v *model.V) string {
 		return "tuples"
 	}
 	return "generic"
+}
+
+// ---------------------------------------------------------------------------
+// deep construction paths (C02, C06, C12): every node of the value may be
+// built by an operator instead of a literal.
+
+// deep renders v choosing, at every set or tuple node, between a literal and a
+// computed construction whose model value is that node by construction.
+func (r *renderer) deep(g gcfg, v *model.V, pct int) string {
+	r.vals = append(r.vals, v)
+	return r.deep1(g, v, pct)
+}
+
+func (r *renderer) deep1(g gcfg, v *model.V, pct int) string {
+	switch v.K {
+	case model.KNum:
+		return model.SrcNum(v.N)
+	case model.KTup:
+		if len(v.Names) > 0 && chance(r.t, "tupcomputed", pct) {
+			return r.tupleComputed(g, v, pct)
+		}
+		parts := make([]string, len(v.Names))
+		for i, n := range v.Names {
+			parts[i] = model.SrcName(n) + ": " + r.deep1(g, v.Vals[i], pct)
+		}
+		return "(" + strings.Join(parts, ", ") + ")"
+	}
+	if chance(r.t, "setcomputed", pct) {
+		s, _ := r.computed(g, v)
+		return s
+	}
+	if len(v.Elems) > 0 && len(v.Elems) <= 4 && chance(r.t, "setdeep", pct) {
+		// spelled-out set whose members are themselves built deeply
+		r.use("lit:spelled-deep")
+		parts := make([]string, len(v.Elems))
+		for i, e := range v.Elems {
+			parts[i] = r.deep1(g, e, pct)
+		}
+		return "{" + strings.Join(parts, ", ") + "}"
+	}
+	return r.lit1(v)
+}
+
+// tupleComputed renders tuple v through +>, attribute removal or projection.
+func (r *renderer) tupleComputed(g gcfg, v *model.V, pct int) string {
+	t := r.t
+	opts := []string{"merge", "merge", "let"}
+	if !inNamesList(v.Names, "zz") {
+		opts = append(opts, "drop")
+		if allIdent(v.Names) {
+			opts = append(opts, "project")
+		}
+	}
+	path := pick(t, "tuppath", opts...)
+	r.use("path:tuple-" + path)
+	field := func(n string, x *model.V) string { return model.SrcName(n) + ": " + r.deep1(g, x, pct/2) }
+	switch path {
+	case "merge":
+		// left gets a random subset (possibly with overwritten values), right the rest
+		var left, right []string
+		for i, n := range v.Names {
+			switch rapid.IntRange(0, 2).Draw(t, "mside") {
+			case 0:
+				left = append(left, field(n, v.Vals[i]))
+			case 1:
+				right = append(right, field(n, v.Vals[i]))
+			default:
+				left = append(left, model.SrcName(n)+": "+model.SrcNum(float64(rapid.IntRange(5, 9).Draw(t, "junk"))))
+				right = append(right, field(n, v.Vals[i]))
+			}
+		}
+		return "((" + strings.Join(left, ", ") + ") +> (" + strings.Join(right, ", ") + "))"
+	case "drop":
+		parts := []string{}
+		for i, n := range v.Names {
+			parts = append(parts, field(n, v.Vals[i]))
+		}
+		parts = append(parts, "zz: "+model.SrcNum(float64(rapid.IntRange(0, 3).Draw(t, "junk"))))
+		return "(" + strings.Join(parts, ", ") + ").~|zz|"
+	case "project":
+		parts := []string{}
+		for i, n := range v.Names {
+			parts = append(parts, field(n, v.Vals[i]))
+		}
+		parts = append(parts, "zz: "+model.SrcNum(float64(rapid.IntRange(0, 3).Draw(t, "junk"))))
+		return "(" + strings.Join(parts, ", ") + ").|" + strings.Join(v.Names, ", ") + "|"
+	}
+	parts := []string{}
+	for i, n := range v.Names {
+		parts = append(parts, field(n, v.Vals[i]))
+	}
+	return "(let tt = (" + strings.Join(parts, ", ") + "); tt)"
+}
+
+func inNamesList(names []string, n string) bool {
+	for _, x := range names {
+		if x == n {
+			return true
+		}
+	}
+	return false
+}
+
+// mutate returns a value close to v but different from it.
+func (g gcfg) mutate(t *rapid.T, v *model.V) *model.V {
+	for i := 0; i < 6; i++ {
+		w := g.mutate1(t, v)
+		if !model.Eq(v, w) {
+			return w
+		}
+	}
+	if v.K == model.KNum {
+		return model.Num(v.N + 1)
+	}
+	return model.Num(1234)
+}
+
+func (g gcfg) mutate1(t *rapid.T, v *model.V) *model.V {
+	switch v.K {
+	case model.KNum:
+		return genNum(t, "num")
+	case model.KTup:
+		if len(v.Names) == 0 {
+			return model.Tup("a", 1)
+		}
+		i := rapid.IntRange(0, len(v.Names)-1).Draw(t, "mut_attr")
+		switch rapid.IntRange(0, 2).Draw(t, "mut_tup") {
+		case 0: // change one value
+			vals := append([]*model.V{}, v.Vals...)
+			vals[i] = g.mutate(t, vals[i])
+			return g.fixSugar(t, model.TupNV(v.Names, vals))
+		case 1: // drop an attribute
+			var names []string
+			var vals []*model.V
+			for j := range v.Names {
+				if j != i {
+					names = append(names, v.Names[j])
+					vals = append(vals, v.Vals[j])
+				}
+			}
+			return g.fixSugar(t, model.TupNV(names, vals))
+		default: // add an attribute
+			return g.fixSugar(t, model.MergeTup(v, model.Tup(pick(t, "mut_name", "a", "b", "c", "@foo"), genNum(t, "num"))))
+		}
+	}
+	if len(v.Elems) == 0 {
+		return model.SetOf(g.genVal(t, 1))
+	}
+	i := rapid.IntRange(0, len(v.Elems)-1).Draw(t, "mut_elem")
+	e := v.Elems[i]
+	switch rapid.IntRange(0, 3).Draw(t, "mut_set") {
+	case 0:
+		return model.Without(v, e)
+	case 1:
+		return model.With(v, g.nearMiss(t, v))
+	case 2:
+		return model.With(model.Without(v, e), g.mutate(t, e))
+	default:
+		if _, ok := v.AsSeq(); ok {
+			return model.Shift(v, pick(t, "mut_shift", -1, 1))
+		}
+		return model.With(model.Without(v, e), g.mutate(t, e))
+	}
 }
